@@ -55,8 +55,20 @@ class NpShim:
         return getattr(np, name)
 
 
+def _odd_user_graph(n, rng):
+    """a user-built digraph: nodes 0..n-1 inserted in no particular order, self-loops (own-history terms) allowed and often dominant"""
+    G = nx.DiGraph()
+    G.add_nodes_from(int(i) for i in rng.permutation(n))
+    for i in rng.permutation(n):
+        for j in rng.permutation(n):
+            if (i == j and rng.random() < 0.6) or (i != j and rng.random() < 0.25):
+                G.add_edge(int(i), int(j))
+    return G
+
+
 def check(run, driver):
-    from causationentropy.datasets import synthetic as S
+    from common import ModuleEntryPoints
+    S = ModuleEntryPoints("causationentropy.datasets.synthetic", "causationentropy.datasets")     # both public paths, in turn
 
     run.rule = (
         "linear_stochastic_gaussian_process and poisson_coupled_oscillators over random seeds, sizes, edge probabilities, "
@@ -74,7 +86,7 @@ def check(run, driver):
         kind = it % 4
         G = None
         if kind == 1:
-            G = nx.gnp_random_graph(n, 0.5, seed=seed, directed=True)
+            G = nx.gnp_random_graph(n, 0.5, seed=seed, directed=True) if it % 8 == 1 else _odd_user_graph(n, rng)
         elif kind == 2:  # acyclic
             G = nx.DiGraph(); G.add_nodes_from(range(n)); G.add_edges_from((i, j) for i in range(n) for j in range(i + 1, n) if rng.random() < 0.5)
         elif kind == 3:  # cycle (directed) or an undirected user-supplied graph
@@ -167,7 +179,7 @@ def check(run, driver):
         lam = float(rng.choice([0.0, 0.03, 0.05, 0.09, 2.0, rng.uniform(0, 5)])); c = float(rng.choice([0.0, 0.3, rng.uniform(0, 1.5)])); seed = int(rng.integers(0, 10**6))
         G = None
         if it % 3 == 1:
-            G = nx.gnp_random_graph(n, 0.4, seed=seed, directed=True)
+            G = nx.gnp_random_graph(n, 0.4, seed=seed, directed=True) if it % 2 else _odd_user_graph(n, rng)
             if it % 2:
                 S.linear_stochastic_gaussian_process(0.5, n=n, T=3, seed=seed, G=G)   # the same graph object served another generator before
         # keep the rates representable: a super-critical network (coupling * in-degree > 1) grows geometrically and NumPy's sampler
